@@ -1,0 +1,50 @@
+//! Verification hooks (cargo feature `verif_hooks`, off by default).
+//!
+//! Read-only views of intermediate results, returned as text so that an external harness can
+//! compare them with an independent model. Nothing here is used by the normal code paths.
+#![allow(missing_docs, dead_code)]
+
+use crate::file_text::FileText;
+use crate::log::{Level, Log};
+use crate::session::Session;
+use crate::tls::Tls;
+use std::collections::BTreeSet;
+use std::path::PathBuf;
+use std::rc::Rc;
+
+pub mod lex;
+pub mod misc;
+pub mod sexp;
+pub mod tokz;
+
+pub use crate::lr1::verif_hooks::export_automaton;
+pub use crate::normalize::verif_hooks::stage_dump;
+
+/// A quiet session with the given feature set (`None` = features unset).
+pub fn quiet_session(features: Option<&[&str]>) -> Session {
+    let mut session = Session::new();
+    session.log = Log::new(Level::Taciturn);
+    session.features = features.map(|fs| fs.iter().map(|s| s.to_string()).collect::<BTreeSet<_>>());
+    session
+}
+
+/// Installs the thread-local session/file text the normalization passes expect.
+pub fn install(session: Session, text: &str) -> (Rc<Session>, Tls) {
+    let session = Rc::new(session);
+    let file_text = Rc::new(FileText::new(
+        PathBuf::from("verif.lalrpop"),
+        text.to_string(),
+    ));
+    let tls = Tls::install(session.clone(), file_text);
+    (session, tls)
+}
+
+/// `x` followed by the hex of the UTF-8 bytes: a field that never contains separators.
+pub fn hex(s: &str) -> String {
+    let mut out = String::with_capacity(1 + 2 * s.len());
+    out.push('x');
+    for b in s.as_bytes() {
+        out.push_str(&format!("{b:02x}"));
+    }
+    out
+}
